@@ -111,6 +111,21 @@ def _cases(draw):
         opts += ['E:1 EX:1', 'EX:1 E:1', '*']
         if draw(st.booleans()):
             L.setdefault('requires', []).append({'id': 'EX', 'version': '1'})
+    if draw(st.integers(0, 2)) == 0:
+        # one id scheme for both projects: E:1 uses L's synset id for a concept they share
+        # (ids are unique within a lexicon only)
+        ren: dict = {}
+        for l_ in L['synsets']:
+            if l_['ili'] and l_['ili'] != 'in' and l_['id'] not in ren.values():
+                e_ = next((e for e in E1['synsets']
+                           if e['ili'] == l_['ili'] and e['id'] not in ren), None)
+                if e_ is not None:
+                    ren[e_['id']] = l_['id']
+        for lx in (E1, lexicons.get('EX:1')):
+            for x in (lx or {}).get('synsets', []):
+                x['id'] = ren.get(x['id'], x['id'])
+                for r in x.get('relations', []):
+                    r['target'] = ren.get(r['target'], r['target'])
     sel = draw(st.sampled_from(['L:1', 'L:1', 'L:1', None, 'L:1 E:1']))
     expand = draw(st.sampled_from(opts))
     return {'lexicons': lexicons, 'order': order, 'selection': sel, 'expand': expand}
@@ -149,6 +164,10 @@ def _classify(case):
     L = case['lexicons']['L:1']
     if 'EX:1' in case['order'] and any(x.spec == 'EX:1' for x in view.expand):
         tags.add('extension-among-expand-lexicons')
+    lids = {x['id']: x['ili'] for x in L['synsets']}
+    if any(lids.get(x['id']) == x['ili'] for x in case['lexicons']['E:1']['synsets']
+           if x['ili'] and x['ili'] != 'in') and any(x.spec == 'E:1' for x in view.expand):
+        tags.add('expand-lexicon-reuses-synset-id-for-shared-ili')
     if case['selection'] and any(f"{d['id']}:{d['version']}" not in case['order']
                                  for d in L.get('requires', [])):
         tags.add('dependency-missing')
@@ -413,5 +432,6 @@ SUBS = [
         budget={'quick': 500, 'thorough': 6000}, sample=_sample, case_timeout=120,
         fingerprint=lambda c: fingerprint(c),
         require_tags=('placeholder', 'many-to-many', 'dropped-target-without-ili',
-                      'dependency-missing', 'mode:unrestricted')),
+                      'dependency-missing', 'mode:unrestricted',
+                      'expand-lexicon-reuses-synset-id-for-shared-ili')),
 ]
